@@ -1686,8 +1686,8 @@ def lower_getitem_range_partitioned(context, builder, sig, args):
     proxyout.view = numba.core.cgutils.alloca_once_value(
         builder, builder.load(partviewproxy.view)
     )
-    proxyout.start = builder.load(regular_start)
-    proxyout.stop = builder.load(regular_stop)
+    proxyout.start = builder.add(partviewproxy.start, builder.load(regular_start))
+    proxyout.stop = builder.add(partviewproxy.start, builder.load(regular_stop))
 
     if context.enable_nrt:
         context.nrt.incref(builder, partviewtype.stopstype, proxyout.stops)
